@@ -36,6 +36,10 @@ func (m c05mon) expect(s *sim.Sim, st *sim.Step) (kind string, tok *sim.MailTok,
 			tok = t
 		}
 	}
+	if strings.HasPrefix(a.Opt["litclass"], "recombined-") {
+		// halves of two mailed tokens put together: never a token of anybody, whatever the bytes are
+		return kind, tok, false, "recombined"
+	}
 	if tok == nil {
 		return kind, nil, false, "unknown-bytes"
 	}
@@ -307,6 +311,36 @@ func c05Unit(c *RunCtx, unit int) {
 			step(act("recover_start", 0, i, ""))
 		}
 	}
+	// recombination: every value that can be put together from the halves of two mailed tokens (of any
+	// kind, any account, live or superseded) is nobody's token — at either endpoint
+	{
+		enc := base64.URLEncoding.EncodeToString
+		var raws [][]byte
+		for _, t := range s.Toks {
+			if b, err := base64.URLEncoding.DecodeString(t.Token); err == nil && len(b) == 64 {
+				raws = append(raws, b)
+			}
+		}
+		for i, x := range raws {
+			for j, y := range raws {
+				for h := 0; h < 4; h++ {
+					hx, hy := h/2, h%2
+					if i == j && hx == 0 && hy == 1 {
+						continue // the token itself
+					}
+					v := append(append([]byte(nil), x[hx*32:hx*32+32]...), y[hy*32:hy*32+32]...)
+					cls := fmt.Sprintf("recombined-%s-%s", []string{"selector", "verifier"}[hx], []string{"selector", "verifier"}[hy])
+					if i == j {
+						cls += "-same-token"
+					}
+					for _, kind := range []string{"confirm", "recover"} {
+						step(litTok(kind, r.Intn(2), r.Intn(len(s.Accts)), enc(v), cls, "Recomb1ned!pw"))
+					}
+				}
+			}
+		}
+		c.Stats.Count("recombination-phase")
+	}
 	ttl := s.W.AB.Config.Modules.RecoverTokenDuration
 	for _, kind := range []string{"confirm", "recover"} {
 		for ai, ac := range s.Accts {
@@ -393,7 +427,7 @@ func head(h []string, n int) []string {
 func init() {
 	register(&Check{
 		ID: "C05", Level: "exploration",
-		Rule:  "per unit: 3 accounts, each issued a confirmation and a recovery token (some re-issued, superseding the first); per genuine token ~560 hostile submissions: all 512 single-bit flips of its 64 bytes, truncations to 0/1/31/32/63 bytes, extensions, broken/unpadded base64, selector/verifier splices with other accounts' tokens in both directions, the other kind's token, the stored selector/verifier strings and their bytes, random bytes, superseded tokens; then the genuine token with a weak password (nothing may change), then the genuine token — in a different base64 spelling of the same bytes in 2/3 of the cases, at age 0 / ttl-1ns / ttl+1ns / 10*ttl — then replays from two browsers. Oracle per submission: accept iff decoded bytes equal a live token of that kind (and unexpired, password valid & hashable); accept must touch exactly that account's fields; reject must leave storage byte-identical. distinct_nontrivial = distinct (kind, mutation class, ledger verdict, mode, status) signatures.",
+		Rule:  "per unit: 3 accounts, each issued a confirmation and a recovery token (some re-issued, superseding the first); per genuine token ~560 hostile submissions: all 512 single-bit flips of its 64 bytes, truncations to 0/1/31/32/63 bytes, extensions, broken/unpadded base64, selector/verifier splices with other accounts' tokens in both directions, every value recombined from the halves of any two mailed tokens (all ordered pairs, all four half combinations, both endpoints — must be nobody's token), the other kind's token, the stored selector/verifier strings and their bytes, random bytes, superseded tokens; then the genuine token with a weak password (nothing may change), then the genuine token — in a different base64 spelling of the same bytes in 2/3 of the cases, at age 0 / ttl-1ns / ttl+1ns / 10*ttl — then replays from two browsers. Oracle per submission: accept iff decoded bytes equal a live token of that kind (and unexpired, password valid & hashable); accept must touch exactly that account's fields; reject must leave storage byte-identical. distinct_nontrivial = distinct (kind, mutation class, ledger verdict, mode, status) signatures.",
 		Units: func(t string) int { return tierN(t, 48, 2000) },
 		Run:   c05Unit,
 		Floors: func(t string) map[string]int {
